@@ -99,3 +99,27 @@ Example C06_spec_example :
   /\ pct_decode fl_query_string [97;43;98;37;50;66;37;50;54]%N = [97;32;98;37;50;66;37;50;54]%N.                 (* a+b%2B%26 *)
 Proof. repeat split; vm_compute; reflexivity. Qed.
 Print Assumptions C06_spec_example.
+
+(** URL level: a decoded text supplied through a modifier reads back unchanged from the
+    matching accessor - every surrogate-free text, either backend.
+    with_fragment(t).fragment == t; with_path(t).path == t for a rooted t when no
+    dot-segment removal applies (no authority, or no '.' in t: the exception the property
+    names); with_name(n).name == n for every URL whose path is empty or rooted under an
+    authority (u / s: C13_div_name_parent; with_query(pairs): C12_with_query_pairs). *)
+From Yarl Require Import Proofs.PathAlgProofs Proofs.ReadbackProofs.
+Theorem C06_with_fragment_readback : forall (B : backend) (u : url) (t : str),
+  valid_str t -> no_sur t -> fragment B (with_fragment B u (Some t)) = t.
+Proof. exact with_fragment_readback. Qed.
+Print Assumptions C06_with_fragment_readback.
+
+Theorem C06_with_path_readback : forall (B : backend) (u : url) (r : str) (kq kf : bool),
+  valid_str r -> no_sur r -> (u_netloc u = [] \/ mem 46%N r = false) ->
+  path B (with_path B u (47%N :: r) false kq kf) = 47%N :: r.
+Proof. exact with_path_readback. Qed.
+Print Assumptions C06_with_path_readback.
+
+Theorem C06_with_name_readback : forall (B : backend) (u : url) (nm : str) (kq kf : bool) (u' : url),
+  path_ok u -> valid_str nm -> no_sur nm -> with_name B u nm kq kf = Ok u' ->
+  raw_name u' = Q B PATH_QUOTER nm /\ name B u' = nm.
+Proof. exact with_name_readback. Qed.
+Print Assumptions C06_with_name_readback.
